@@ -63,7 +63,7 @@ TraceInit ==
          /\ WellTyped(e.kind, o) /\ HierValid(e.par, e.kind, o)      \* hierarchy-valid at start
          /\ par = e.par /\ kind = e.kind
          /\ val = o /\ old = o /\ target = o /\ written = {} /\ phase = "idle"
-    /\ cache = <<>> /\ pc = <<"idle">> /\ rewrites = 0                \* PART 2 variables are not used here
+    /\ cache = <<>> /\ pc = <<"idle">> /\ rewrites = 0 /\ algo = ""   \* PART 2 variables are not used here
 
 TraceNext == TBegin \/ TCall \/ TDone \/ TExpire \/ (SegDone /\ phase = "idle" /\ UNCHANGED vars)
 TraceSpec == TraceInit /\ [][TraceNext]_<<vars, tvars>>
